@@ -1,1 +1,3 @@
 pub mod basic;
+pub mod skip;
+pub mod utf8;
